@@ -123,6 +123,7 @@ class Interp:
         self.trace_sites: list = []
         self.prove_timeout_ms = 10000
         self.binder_stack: list = []
+        self.alloc_log = None
         self.pure_ctx: list = []
         self.alive_pre = self.alive
 
@@ -135,6 +136,10 @@ class Interp:
             f = z3.Function(name, *[c.sort() for c in consts], sort)
             return f(*consts)
         return z3.Const(name, sort)
+
+    def fresh_plain(self, base: str, sort):
+        """A fresh constant that does not depend on enclosing binders (state after a comprehension)."""
+        return z3.Const(f"{base}!{next(self.counter)}", sort)
 
     def bound(self, base: str, sort):
         """A fresh constant that is going to be bound by a quantifier / lambda."""
@@ -367,6 +372,8 @@ class Interp:
         self.assume(z3.Not(z3.Select(self.alive, r)))
         self.alive = z3.Store(self.alive, r, z3.BoolVal(True))
         self.assume(self.cls_of(r) == self.cls_id(cls))
+        if self.alloc_log is not None:
+            self.alloc_log.append(r)
         return SV(TObj(cls, exact=True), r)
 
     def owners_of_field(self, fname: str) -> list[str]:
